@@ -7,6 +7,7 @@ import YkDrv.QueueDrv
 import YkDrv.CoreDrv
 import YkDrv.SortDrv
 import YkDrv.PlaceDrv
+import YkDrv.LockDrv
 import YkDrv.ReloadDrv
 import YkDrv.MalDrv
 import YkDrv.RecoverDrv
@@ -33,6 +34,7 @@ def dispatch (st : DrvState) (j : Json) : Except String (DrvState × String) := 
   | "res" => pure (st, ← resStep j)
   | "ring" => let (r, v) ← ringStep st.ring j; pure ({ st with ring := r }, v)
   | "sort" => pure (st, ← sortStep j)
+  | "lock" => pure (st, ← lockStep j)
   | "conf" => pure (st, ← confStep j)
   | "stream" => pure (st, ← streamStep j)
   | "core" => let (r, v) ← coreStep st.core j; pure ({ st with core := r }, v)
